@@ -1,6 +1,8 @@
 (* Property C13 -- clone writes only source chunks at their offsets, once, skipping in-place ones. *)
 From Bita Require Import Model.Base Model.ChunkIndex Model.CloneOutput Model.CloneSpec.
 From Bita Require Import Proofs.Planner Proofs.CloneCorrect Proofs.CloneFinal.
+From Bita Require Import Model.Chunker Model.Proto Model.Archive Model.Compress Model.CloneArchive Model.CloneBytes.
+From Bita Require Import Proofs.ProtoRoundTrip Proofs.TamperSafe Proofs.RoundTrip Proofs.CloneBytesCorrect Proofs.CloneBytesMore.
 
 Theorem C13_write_trace_spec :
   forall (D : N -> list N) (src prior : list N) (cidx : index) (oidx : option index)
@@ -14,6 +16,30 @@ Theorem C13_write_trace_spec :
     /\ NoDup (map fst ws).
 Proof. exact write_trace_spec_final. Qed.
 
+(* The same over raw BYTES (Model/CloneBytes.v): the old output and the seeds are arbitrary byte strings scanned with
+   the archive's chunker. For every archive of the model writer, every write of the clone is the bytes of the
+   source at that offset, within the source length, at an offset the source index lists for a chunk of that size;
+   no offset is written twice; and (in place) an offset where the scan found the source's own chunk already in
+   place is never written. *)
+Theorem C13_write_economy_bytes :
+  forall (H comp : list N -> list N) (decomp : N -> list N -> option (list N)),
+    (forall x, lenN (H x) = 64) -> (forall x, Forall (fun b => b < 256) (H x)) ->
+    forall src o bytes prior inplace seeds,
+      opts_ok o -> bytes_ok src -> lenN src < 18446744073709551616 -> lenN bytes < 18446744073709551616 ->
+      codec_ok comp decomp o -> few_chunks o src -> no_collision H o src prior inplace seeds ->
+      compress_model H comp src o = Ok bytes ->
+      exists a r, try_init H (file_read_at bytes) = Ok a
+        /\ clone_bytes H decomp a (file_payload bytes) prior inplace seeds = Ok r
+        /\ let ws := writes_of 0 (o_trace (cr_state r)) in
+           (forall o' d, In (o', d) ws ->
+               slice src o' (o' + lenN d) = d /\ o' + lenN d <= lenN src
+               /\ exists k l, ci_get (build_source_index a) k = Some l /\ In o' (l_offs l) /\ l_size l = lenN d)
+           /\ NoDup (map fst ws)
+           /\ (inplace = true -> forall o' c k l, In (o', c) (scan_chunks a prior) ->
+                 ci_get (build_source_index a) k = Some l -> In o' (l_offs l) -> l_size l = lenN c ->
+                 slice src o' (o' + lenN c) = c -> ~ In o' (map fst ws)).
+Proof. exact compress_clone_bytes_writes. Qed.
+
 Example C13_example :
   let cidx := [(1, {| l_size := 3; l_offs := [0] |}); (0, {| l_size := 2; l_offs := [3;5] |})] in
   let oidx := [(0, {| l_size := 2; l_offs := [0] |}); (1, {| l_size := 3; l_offs := [2] |})] in
@@ -22,3 +48,4 @@ Example C13_example :
 Proof. vm_compute. reflexivity. Qed.
 
 Print Assumptions C13_write_trace_spec.
+Print Assumptions C13_write_economy_bytes.
